@@ -133,9 +133,10 @@ CLAIMED = {
          "time reversal only for zero/half shifts, for which q -> -q maps the shifted grid onto itself; GridPoints._shift2boolean returns None exactly for "
          "shifts that are neither zero nor half; MeshBase.__init__ hands GridPoints the rotations it was given and the reciprocal basis as columns "
          "(cell . reciprocal == 1, exact identity); Phonopy.init_mesh gives Mesh and IterMesh the primitive cell's point-group operations and identical common "
-         "arguments. The weighted sum over irreducible points itself is the C10 kernel contract (phpy_get_thermal_properties: sum_i w_i sum_k g(T, f_ik)).",
-    note=TRUST + "spglib.get_stabilized_reciprocal_mesh is assumed to satisfy its documented contract (not verified). NOT decided: extract_ir_grid_points "
-         "(weights as histogram of the mapping table; sum == number of grid points), symmetry invariance of the summands (C03), generalised regular grids, "
+         "arguments. extract_ir_grid_points: histogram schema (syntactic) + lemma by three inductions: the weights of the distinct values of any mapping table sum to "
+         "the number of grid points (every grid point counted exactly once). BrillouinZone coordinate changes keep the Cartesian q-point. The weighted sum over "
+         "irreducible points itself is the C10 kernel contract (phpy_get_thermal_properties: sum_i w_i sum_k g(T, f_ik)).",
+    note=TRUST + "spglib.get_stabilized_reciprocal_mesh is assumed to satisfy its documented contract (not verified). NOT decided: symmetry invariance of the summands (C03), generalised regular grids, "
          "relocate_BZ_grid_address. Finding E17 (time reversal applied to arbitrarily shifted meshes) repaired by a fix: commit.",
     technique="deductive verification: call-site preconditions by symbolic execution of the Python callers (provenance of abstracted arrays, exact 3x3 identities)",
     design="DESIGN.md section 5 C09"),
